@@ -413,7 +413,11 @@ func TestC17(t *testing.T) {
 	rep.Traces = seqs
 	rep.Extra["sequences"] = seqs
 
-	runTSet(t, rep, c17TScenarios(), 2, 9000)
+	tb17 := 2
+	if thorough() {
+		tb17 = 3
+	}
+	runTSet(t, rep, c17TScenarios(), tb17, 9000)
 	// ---- rotation
 	c17Rotation(t, rep)
 	rep.Distinct = rep.States
